@@ -203,7 +203,12 @@ def make_regs(rng):
                 fd = codec.fd_flt(rng.randrange(dec + 3, dec + 9) if fmt == "F" else dec + 8, pos, dec, fmt, rng.choice(".,"))
             else:
                 fm, w = rng.choice([("%Y/%m/%d", 10), ("%d%m%y", 6), ("%Y-%m-%d %H:%M", 16), ("%d/%m/%Y", 10)])
-                fd = codec.fd_date(w + rng.choice([0, 2]), pos, [fm])
+                fms = [fm]
+                if rng.random() < 0.25:
+                    # a LIST of formats; the later ones also parse (some of) the first one's output,
+                    # with a different result: the first declared format that parses must win
+                    fms += {"%d/%m/%Y": ["%m/%d/%Y"], "%Y/%m/%d": ["%Y/%d/%m"], "%d%m%y": ["%m%d%y", "%y%m%d"]}.get(fm, ["%Y-%m-%d %H:%M:%S"])
+                fd = codec.fd_date(w + rng.choice([0, 2]), pos, fms)
             fields.append(fd)
             pos += fd["size"] + rng.choice([0, 0, 1, 2])
         regs.append({"ident": codec.enc_str(ident), "digits": digits, "fields": fields, "delimiter": None})
